@@ -64,7 +64,7 @@ SAFE_MODULES = frozenset(
         "base64",
         "binascii",
         "quopri",
-        "uu",
+        # Note: uu excluded - uu.encode()/decode() open the files named by their arguments
         # Compression (in-memory only via compress/decompress)
         "zlib",  # Only zlib.compress/decompress, no file methods
         # Note: gzip, bz2, lzma excluded - they have .open() for file I/O
@@ -462,6 +462,8 @@ class SafetyAnalyzer(ast.NodeVisitor):
     def __init__(self, allow_print: bool = True):
         self.violations: list[Violation] = []
         self.allow_print = allow_print
+        self.imported_roots: set[str] = set()
+        self._called_names: set[int] = set()
 
     def _add(self, node: ast.AST, kind: str, detail: str) -> None:
         self.violations.append(
@@ -474,6 +476,7 @@ class SafetyAnalyzer(ast.NodeVisitor):
         for alias in node.names:
             module = alias.name
             root = module.split(".")[0]
+            self.imported_roots.add(root)
 
             if module in DANGEROUS_MODULES or root in DANGEROUS_MODULES:
                 self._add(node, "import", f"dangerous module: {module}")
@@ -489,11 +492,16 @@ class SafetyAnalyzer(ast.NodeVisitor):
 
         module = node.module
         root = module.split(".")[0]
+        self.imported_roots.add(root)
 
         if module in DANGEROUS_MODULES or root in DANGEROUS_MODULES:
             self._add(node, "import", f"dangerous module: {module}")
         elif module not in SAFE_MODULES and root not in SAFE_MODULES:
             self._add(node, "import", f"unknown module: {module}")
+        for alias in node.names:
+            # `from json import codecs`: a module reached through a safe one
+            if alias.name.lstrip("_") in DANGEROUS_MODULES or alias.name in self.ESCAPE_ATTRS:
+                self._add(node, "import", f"dangerous name: {alias.name}")
 
         self.generic_visit(node)
 
@@ -503,6 +511,7 @@ class SafetyAnalyzer(ast.NodeVisitor):
         # Direct builtin call: eval(), exec(), open()
         if isinstance(func, ast.Name):
             name = func.id
+            self._called_names.add(id(func))
             if name in DANGEROUS_BUILTINS:
                 if name == "print" and self.allow_print:
                     pass  # Allow print
@@ -555,12 +564,36 @@ class SafetyAnalyzer(ast.NodeVisitor):
             "cr_await",
             "cr_frame",
             "cr_code",
+            # Module objects and their loaders
+            "__loader__",
+            "__spec__",
+        }
+    )
+
+    # Attributes that hand out a module object, a loader, or look attributes up by
+    # name string (random._os, ast.sys.modules, enum.bltns, operator.attrgetter, ...)
+    ESCAPE_ATTRS = frozenset(
+        {
+            "builtins",
+            "bltns",
+            "modules",
+            "__getattribute__",
+            "attrgetter",
+            "methodcaller",
+            "get_type_hints",
+            "ForwardRef",
+            "load_module",
+            "_builtin_open",
         }
     )
 
     def visit_Attribute(self, node: ast.Attribute) -> None:
         # Flag dangerous attribute access even without call
         if node.attr in self.REFLECTION_ATTRS:
+            self._add(node, "reflection", f"dangerous attribute: {node.attr}")
+        elif node.attr in self.ESCAPE_ATTRS or node.attr.lstrip("_") in DANGEROUS_MODULES:
+            # an attribute named like a dangerous module is that module more often
+            # than not: safe modules import os, sys, io, codecs, ... themselves
             self._add(node, "reflection", f"dangerous attribute: {node.attr}")
 
         self.generic_visit(node)
@@ -570,6 +603,15 @@ class SafetyAnalyzer(ast.NodeVisitor):
         name = node.id
         if name in ("__builtins__", "__loader__", "__spec__"):
             self._add(node, "reflection", f"dangerous name: {name}")
+        elif (
+            isinstance(node.ctx, ast.Load)
+            and id(node) not in self._called_names
+            and name in DANGEROUS_BUILTINS
+            and not (name == "print" and self.allow_print)
+        ):
+            # a dangerous builtin that is not called by name here can be called
+            # through an alias later (f = open; map(eval, ...); partial(exec, ...))
+            self._add(node, "builtin", f"dangerous builtin: {name}")
 
         self.generic_visit(node)
 
@@ -615,7 +657,9 @@ class SafetyAnalyzer(ast.NodeVisitor):
         self.generic_visit(node)
 
 
-def analyze_python_source(source: str, allow_print: bool = True) -> list[Violation]:
+def analyze_python_source(
+    source: str | bytes, allow_print: bool = True, base: Path | None = None
+) -> list[Violation]:
     """
     Analyze Python source code for safety violations.
 
@@ -625,9 +669,19 @@ def analyze_python_source(source: str, allow_print: bool = True) -> list[Violati
         tree = ast.parse(source)
     except SyntaxError as e:
         return [Violation(e.lineno or 0, e.offset or 0, "syntax", str(e))]
+    except ValueError as e:  # e.g. NUL bytes
+        return [Violation(0, 0, "syntax", str(e))]
 
     analyzer = SafetyAnalyzer(allow_print=allow_print)
     analyzer.visit(tree)
+    if base is not None:
+        # `python script.py` puts the script's directory first on sys.path: a
+        # sibling json.py would be imported instead of the standard module
+        for root in sorted(analyzer.imported_roots):
+            if (base / f"{root}.py").exists() or (base / root).is_dir():
+                analyzer.violations.append(
+                    Violation(0, 0, "import", f"local module shadows: {root}")
+                )
     return analyzer.violations
 
 
@@ -656,12 +710,13 @@ def analyze_python_file(path: Path) -> tuple[bool, str]:
         return False, f"cannot stat file: {e}"
 
     # Read and analyze
+    # Bytes, not text: ast.parse then honours the PEP 263 coding cookie like CPython
     try:
-        source = path.read_text(encoding="utf-8")
-    except (OSError, UnicodeDecodeError) as e:
+        source = path.read_bytes()
+    except OSError as e:
         return False, f"cannot read file: {e}"
 
-    violations = analyze_python_source(source)
+    violations = analyze_python_source(source, base=path.parent)
 
     if violations:
         # Return first violation as reason
